@@ -11,6 +11,7 @@ package store
 // verification enabled.
 
 import (
+	"context"
 	"encoding/binary"
 	"encoding/json"
 	"errors"
@@ -69,11 +70,20 @@ type c08Hist struct {
 	GC   bool   `json:"gc"`   // one collector pass after the appends
 	Tail string `json:"tail"` // none | close | more | rename | delnew | resnap
 	Big  bool   `json:"big,omitempty"` // large files (see c08Geom)
+	// Snap == "part": the snapshot reception is given up by its OWNER after K received bytes:
+	// End = close (Close()) | cancel (context cancelled, Wait, Close()) | reset (a new snapshot
+	// writer replaces it: dataSetRdb.Close) | del (DelRunId: dataSetRdb.Close); then a segment
+	// writer and one rotating append. Only instants from the ending on are frozen.
+	End string `json:"end,omitempty"`
+	K   int64  `json:"k,omitempty"`
 	Base int64  `json:"base"` // first offset: 95 (names 95,104,113 cross the 2->3 digit boundary: lexical != numeric order) | 100
 }
 
 func (h c08Hist) String() string {
 	s := fmt.Sprintf("snap=%s,app=%s,gc=%v,tail=%s,base=%d", h.Snap, h.App, h.GC, h.Tail, h.Base)
+	if h.Snap == "part" {
+		s += fmt.Sprintf(",end=%s,k=%d", h.End, h.K)
+	}
 	if h.Big {
 		s += ",big"
 	}
@@ -120,6 +130,7 @@ type c08Recorded struct {
 	idHist   map[string]int   // run id -> history whose bytes its directory holds
 	maxRight map[string]int64 // run id -> one past the highest offset fed
 	minLeft  map[string]int64
+	from     int // first log position whose crash images are enumerated
 	err      string
 }
 
@@ -209,6 +220,53 @@ func c08Record(t *testing.T, h c08Hist, root string) c08Recorded {
 				rec.maxRight[id] = right
 			}
 			synctest.Wait()
+		}
+		if h.Snap == "part" {
+			// owner-side ending of a snapshot reception after K bytes
+			g := newGate()
+			gates = append(gates, g)
+			w, err := st.GetRdbWriter(g, c08Base, c08SnapSize)
+			if err != nil {
+				fail("GetRdbWriter: %v", err)
+				cleanup()
+				return
+			}
+			closers = append(closers, w.Close)
+			w.Start()
+			if h.K > 0 {
+				g.Release(c08SnapBytes(hist)[:h.K])
+			}
+			synctest.Wait()
+			rec.from = vos.Len()
+			ok := true
+			switch h.End {
+			case "close":
+				w.Close()
+			case "cancel":
+				ctx, cancel := context.WithCancel(context.Background())
+				cancel()
+				if werr := w.Wait(ctx); werr != nil {
+					fail("Wait on a cancelled context answered %v", werr)
+				}
+				w.Close()
+			case "reset":
+				ok = snapshot(c08Base, true)
+			case "del":
+				if err := st.DelRunId("runA"); err != nil {
+					fail("DelRunId: %v", err)
+					ok = false
+				} else if err := st.SetRunId("runA"); err != nil {
+					fail("SetRunId: %v", err)
+					ok = false
+				}
+			}
+			synctest.Wait()
+			if ok && newAof(c08Base) {
+				app(9 * c08U)
+			}
+			rec.log = vos.StopLog()
+			cleanup()
+			return
 		}
 		if h.Snap != "none" && !snapshot(c08Base, h.Snap == "full") {
 			cleanup()
@@ -777,6 +835,19 @@ func c08Histories(tier string) []c08Hist {
 			}
 		}
 	}
+	// owner-side endings of a snapshot reception at every received length k < size
+	for _, end := range []string{"close", "cancel", "reset", "del"} {
+		for k := int64(0); k < 40; k++ {
+			if tier != "thorough" && (end == "cancel" || end == "del") && !(k == 0 || k == 1 || k == 20 || k == 39) {
+				continue // quick: the Wait(ctx) and DelRunId variants at four lengths
+			}
+			base := int64(95)
+			if k%3 == 1 {
+				base = 0
+			}
+			out = append(out, c08Hist{Snap: "part", End: end, K: k, Tail: "none", App: "a", Base: base})
+		}
+	}
 	// large files (segments 9900 B, snapshot 11000 B): crash family with sampled torn writes,
 	// read with and without verification; alteration family on the clean-close history
 	out = append(out, c08Hist{Snap: "full", App: "a", GC: false, Tail: "close", Base: 95, Big: true})
@@ -961,11 +1032,12 @@ func runC08(t *testing.T, rep *mc.Reporter) {
 			seen[hsh] = true
 			images++
 			run(c08Scenario{Hist: h, Family: "crash", N: n, Cut: cut}, rec)
-			if tier == "thorough" || h.Big || (h == c08Hist{Snap: "full", App: "a", GC: false, Tail: "none", Base: 95}) {
+			if tier == "thorough" || h.Big || (h == c08Hist{Snap: "full", App: "a", GC: false, Tail: "none", Base: 95}) ||
+				(h.Snap == "part" && (h.K == 1 || h.K == 25 || h.K == c08SnapSize-1)) {
 				run(c08Scenario{Hist: h, Family: "crash-crc", N: n, Cut: cut}, rec)
 			}
 		}
-		for n := 0; n <= len(rec.log); n++ {
+		for n := rec.from; n <= len(rec.log); n++ {
 			try(n, -1)
 			if n < len(rec.log) && rec.log[n].Kind == "write" {
 				ln := len(rec.log[n].Data)
